@@ -308,6 +308,12 @@ func Program(w *WF, rt *Runtime) {
 	}
 	wf := Build(w, rt)
 	switch {
+	case w.RunToNone && w.RunToMode == 1:
+		wf.RunToRegex("^no_such_process_[0-9]+$") // (a typo: selects nothing)
+	case w.RunToNone && w.RunToMode == 2:
+		wf.RunToProcs()
+	case w.RunToNone:
+		wf.RunTo()
 	case len(w.RunTo) == 0:
 		wf.Run()
 	case w.RunToMode == 1:
